@@ -39,6 +39,9 @@ def t_own_steps(chk, ix):
 
 
 def t_status(chk, ix):
+    # row scenarios are built once and keep their state (status, skip marks): build_scenarios clears every table's modified mark
+    from .. import rules_outline
+    rules_outline.check_build_order(chk, ix)
     rules_status.check_status_tables(chk, ix)
     rules_status.check_mapping_functions(chk, ix)
     rules_status.check_rollup(chk, ix, tier=chk.tier)
@@ -47,5 +50,5 @@ def t_status(chk, ix):
 
 def run(chk, ix, tier):
     run_parallel(chk, [(t_status, ()), (t_own_steps, ()), (T.t_scenario, (("R4",),))] + T.container_tasks(("R4",)))
-    for r, n in (("R1", 20), ("R2", 15), ("R3", 4), ("R4", 4), ("R5", 5), ("R6", 5)):
+    for r, n in (("B1", 1), ("B4", 1), ("R1", 20), ("R2", 15), ("R3", 4), ("R4", 4), ("R5", 5), ("R6", 5)):
         chk.require_instances(r, n)
